@@ -119,21 +119,42 @@ func c03Scenario(c *Ctx, idx int, r *Rng) {
 	defer os.RemoveAll(base)
 	defer os.Remove(base + "/w.gitconfig")
 	os.MkdirAll(base, 0o755)
-	srv := newLfsServer()
-	defer srv.srv.Close()
-	remote := filepath.Join(base, "remote.git")
-	runIn(base, nil, "git", "init", "-q", "--bare", remote)
-	w, err := newScenRepo(c, filepath.Join(base, "w"), srv)
+	type c03Remote struct {
+		name     string
+		dir      string
+		srv      *lfsServer
+		bypassed bool // the user bypassed the hook at least once for this remote (then only the delta of each push is judged)
+	}
+	var remotes []*c03Remote
+	nremotes := 1
+	if r.Chance(35) {
+		nremotes = 2 + r.Intn(2)
+	}
+	for k := 0; k < nremotes; k++ {
+		rm := &c03Remote{name: []string{"origin", "backup", "third"}[k], dir: filepath.Join(base, fmt.Sprintf("remote%d.git", k)), srv: newLfsServer()}
+		defer rm.srv.srv.Close()
+		runIn(base, nil, "git", "init", "-q", "--bare", rm.dir)
+		remotes = append(remotes, rm)
+	}
+	w, err := newScenRepo(c, filepath.Join(base, "w"), remotes[0].srv)
 	if err != nil {
 		c.R.Add(Finding{Kind: "diff", What: "scenario setup: " + err.Error(), Broken: "corr.C03.scenario"})
 		return
 	}
-	w.git("remote", "add", "origin", remote)
+	for _, rm := range remotes {
+		w.git("remote", "add", rm.name, rm.dir)
+		if nremotes > 1 { // every remote has its own LFS store
+			w.git("config", "remote."+rm.name+".lfsurl", rm.srv.srv.URL)
+		}
+	}
+	if nremotes > 1 {
+		w.git("config", "--unset", "lfs.url")
+	}
 	batch := Pick(r, []int{1, 2, 3, 100})
 	w.git("config", "lfs.batchsize", fmt.Sprint(batch))
 	var steps []string
 	log := func(f string, a ...interface{}) { steps = append(steps, fmt.Sprintf(f, a...)) }
-	log("batchsize=%d", batch)
+	log("batchsize=%d remotes=%d", batch, nremotes)
 	w.write(".gitattributes", []byte("*.bin filter=lfs diff=lfs merge=lfs -text\n*.dat filter=lfs -text\n"))
 	w.git("add", ".gitattributes")
 	w.git("commit", "-qm", "attrs")
@@ -142,10 +163,11 @@ func c03Scenario(c *Ctx, idx int, r *Rng) {
 		b := r.Bytes(Pick(r, []int{1, 30, 1023, 1024, 1500, 5000}))
 		contents = append(contents, b)
 		if r.Chance(4) { // the storage server will refuse this object
-			srv.mu.Lock()
-			srv.putFail[sha(b)] = Pick(r, []int{422, 500, 403})
-			srv.mu.Unlock()
-			log("server refuses %s", sha(b)[:8])
+			rm := Pick(r, remotes)
+			rm.srv.mu.Lock()
+			rm.srv.putFail[sha(b)] = Pick(r, []int{422, 500, 403})
+			rm.srv.mu.Unlock()
+			log("server of %s refuses %s", rm.name, sha(b)[:8])
 		}
 		return b
 	}
@@ -162,8 +184,7 @@ func c03Scenario(c *Ctx, idx int, r *Rng) {
 		c.R.Add(Finding{Kind: "oracle", What: what, Case: fmt.Sprintf("C03 scen seed=%d idx=%d steps=%s", c.Seed, idx, strings.Join(steps, " ; ")), Impl: clip(impl, 600)})
 	}
 	newObjectsReachable := false
-	bypassed := false // the user bypassed the hook at least once (then only the delta of each push is judged)
-	reach := func() map[string]bool {
+	reach := func(remote string) map[string]bool {
 		m := map[string]bool{}
 		for _, cm := range revList(remote, w.env, "--all") {
 			m[cm] = true
@@ -216,9 +237,11 @@ func c03Scenario(c *Ctx, idx int, r *Rng) {
 		return m
 	}
 	doPush := func() {
+		rm := Pick(r, remotes)
+		remote, srv, bypassed := rm.dir, rm.srv, rm.bypassed
 		before := remoteRefs(remote, w.env)
-		reachBefore := reach()
-		cached := refMap(w.dir, "refs/remotes/origin/")
+		reachBefore := reach(remote)
+		cached := refMap(w.dir, "refs/remotes/"+rm.name+"/")
 		actual := refMap(remote, "refs/heads/")
 		var args []string
 		kind := r.Intn(10)
@@ -227,18 +250,18 @@ func c03Scenario(c *Ctx, idx int, r *Rng) {
 		switch {
 		case kind < 5:
 			br := Pick(r, branches)
-			args = []string{"push", "origin", br}
+			args = []string{"push", rm.name, br}
 			if r.Chance(20) {
-				args = []string{"push", "-f", "origin", br}
+				args = []string{"push", "-f", rm.name, br}
 			}
 		case kind < 7:
-			args = []string{"push", "origin", "--all"}
+			args = []string{"push", rm.name, "--all"}
 		case kind < 8:
-			args = []string{"push", "origin", "--tags"}
+			args = []string{"push", rm.name, "--tags"}
 		case kind < 9 && len(branches) > 1:
-			args = []string{"push", "origin", branches[0], branches[len(branches)-1]}
+			args = []string{"push", rm.name, branches[0], branches[len(branches)-1]}
 		default:
-			args = []string{"push", "origin", "HEAD"}
+			args = []string{"push", rm.name, "HEAD"}
 		}
 		log("git %s", strings.Join(args, " "))
 		// expected upload set for a single-branch push, from the model's exclusion + git's own rev-list
@@ -312,7 +335,7 @@ func c03Scenario(c *Ctx, idx int, r *Rng) {
 		if code == 0 {
 			c.R.Count("push.ok")
 			var delta []string
-			for cm := range reach() {
+			for cm := range reach(remote) {
 				if !reachBefore[cm] {
 					delta = append(delta, cm)
 				}
@@ -375,11 +398,13 @@ func c03Scenario(c *Ctx, idx int, r *Rng) {
 		case 12: // the user bypasses the hook: refs reach the remote without their LFS objects
 			if r.Chance(50) {
 				br := Pick(r, branches)
-				w.git("push", "--no-verify", "-q", "origin", br)
-				bypassed = true
-				log("git push --no-verify origin %s", br)
+				rm := Pick(r, remotes)
+				w.git("push", "--no-verify", "-q", rm.name, br)
+				rm.bypassed = true
+				log("git push --no-verify %s %s", rm.name, br)
 			}
 		case 13: // somebody else force-moves a branch on the remote behind this client's back
+			remote := Pick(r, remotes).dir
 			act := refMap(remote, "refs/heads/")
 			if len(act) > 0 && r.Chance(60) {
 				var names []string
@@ -395,6 +420,7 @@ func c03Scenario(c *Ctx, idx int, r *Rng) {
 				log("remote: force-move %s", nme)
 			}
 		case 14: // somebody deletes a branch on the remote
+			remote := Pick(r, remotes).dir
 			act := refMap(remote, "refs/heads/")
 			if len(act) > 0 && r.Chance(50) {
 				var names []string
@@ -460,18 +486,24 @@ func c03Scenario(c *Ctx, idx int, r *Rng) {
 	}
 	doPush()
 	// a final push of everything: afterwards the invariant must hold for all refs
-	log("git push origin --all")
-	if _, code := w.git("push", "origin", "--all"); code == 0 && !bypassed {
-		if missing, _ := serverInvariant(remote, w.env, srv, nil, nil); len(missing) > 0 {
-			fail("after `git push --all` succeeded an object referenced on the remote is not on the server", strings.Join(missing, ", "))
+	for _, rm := range remotes {
+		log("git push %s --all", rm.name)
+		if _, code := w.git("push", rm.name, "--all"); code == 0 && !rm.bypassed {
+			if missing, _ := serverInvariant(rm.dir, w.env, rm.srv, nil, nil); len(missing) > 0 {
+				fail("after `git push --all` succeeded an object referenced on the remote is not on the server", strings.Join(missing, ", "))
+			}
 		}
 	}
 	enc := fmt.Sprintf("C03 scen seed=%d idx=%d", c.Seed, idx)
 	c.R.Eval(enc, newObjectsReachable)
-	srv.mu.Lock()
-	c.R.Count(fmt.Sprintf("server.objects.%d", min(len(srv.objs), 9)))
-	nreq := len(srv.reqs)
-	srv.mu.Unlock()
+	nreq := 0
+	for _, rm := range remotes {
+		rm.srv.mu.Lock()
+		c.R.Count(fmt.Sprintf("server.objects.%d", min(len(rm.srv.objs), 9)))
+		nreq += len(rm.srv.reqs)
+		rm.srv.mu.Unlock()
+	}
+	c.R.Count(fmt.Sprintf("remotes.%d", nremotes))
 	if idx%10 == 0 {
 		c.R.Sample(map[string]interface{}{"steps": steps, "requests_captured": nreq, "pushes": pushed})
 	}
